@@ -598,3 +598,50 @@ func excludes(it patItem, tok string) bool {
 	}
 	return false
 }
+
+
+// variadicRejectsEmptyTPI: for every variadic built-in of the specification, no path of the function-call parser accepts
+// an empty argument list (decided by path enumeration with the name pinned, as T-FUNC does).
+func variadicRejectsEmptyTPI(p *Program) (bool, bool) {
+	d := newParserDom(p)
+	if d.why != "" {
+		return false, false
+	}
+	rl := d.inferRoles()
+	if rl.function == nil {
+		return false, false
+	}
+	seen := false
+	for name, spec := range builtinSpecs {
+		if spec.max >= 0 {
+			continue
+		}
+		seen = true
+		e, st := d.start(rl.function)
+		d.opaqueOnly = map[*ssa.Function]bool{d.exprFn: true}
+		e.MaxVisits = 2
+		nm := name
+		d.SetToken(st, 1, "UnquotedIdentifierToken", &nm)
+		d.SetToken(st, 2, "OpenParenToken", nil)
+		outs := e.Run(rl.function, []AV{avPtr{d.pobj, ""}}, st)
+		if e.Aborted != "" {
+			return false, false
+		}
+		for _, o := range outs {
+			if o.Panic || o.Cut || len(o.Res) != 2 || !isDefNil(o.Res[1]) {
+				continue
+			}
+			items, _, _ := d.consumed(o.St)
+			n := 0
+			for _, it := range items {
+				if it.Ev != nil && it.Ev.Kind == "expr" {
+					n++
+				}
+			}
+			if n == 0 {
+				return false, true
+			}
+		}
+	}
+	return seen, seen
+}
